@@ -8,3 +8,4 @@ const verifBoundFile = 10
 const verifBoundIdxLookups = 3
 const verifBoundIdxFile = 112
 const verifBoundTail = 12
+const verifBoundManifestV4 = true
